@@ -295,6 +295,15 @@ def completion_chunk(args):
         items = agg.items_of(beh["prog"], cmds, seed * 1000003 + n)
         src = agg.render_variant(items, trivia, seed * 13 + n)
         st, page, _, _ = agg.run_real(src, agg.make_settings(beh["inc"], pats))
+        if st == "ok" and "#[[[" in src:
+            # history: the same module with every doccomment turned into a plain bracket comment of the same length, in the
+            # same process right after it - the same commands at the same offsets, now undocumented, are a valid file too
+            # (nothing the first module left behind may make the second one fail)
+            twin = src.replace("#[[[", "#[[ ")
+            st2, page2, _, _ = agg.run_real(twin, agg.make_settings(beh["inc"], pats))
+            if st2 != "ok":
+                out.append((n, (src + "\n# ---- then, in the same process ----\n" + twin, page2)))
+                continue
         out.append((n, None if st == "ok" else (src, page)))
     return out
 
